@@ -89,6 +89,9 @@ theorem inv_step (s : State) (op : Op) (i : Inv s) (hg : Guard s op)
   | setVisible x v => exact inv_opSetVisible i x v
   | setLeft x v => exact inv_opSetOffset i x true v
   | setTop x v => exact inv_opSetOffset i x false v
+  | setAttr x =>
+    simp only [step, Op.target]
+    split <;> exact i
   | observe o => exact (observe_same s o).inv i
 
 
@@ -161,6 +164,9 @@ theorem step_ref (s : State) (op : Op) (e : Err) (i : Inv s)
   | setVisible x v => exact fun h => opSetVisible_ref _ s x v e h hne
   | setLeft x v => exact fun h => opSetOffset_ref _ s x true v e h hne
   | setTop x v => exact fun h => opSetOffset_ref _ s x false v e h hne
+  | setAttr x =>
+    simp only [step, Op.target]
+    split <;> exact fun _ => SameTree.refl s
   | observe o => exact fun _ => observe_same s o
 
 
